@@ -4,3 +4,43 @@ GROUPS = [
       loops={"CODictFind.0": "VWL_dict_find"}, reach=["post", "found", "notfound"],
       props={"C06": "quick", "C01": "quick", "C04": "thorough"}, timeout=300, cost=20),
 ]
+
+def _int_groups():
+    gs = []
+    for w, n in ((1, "8"), (2, "16"), (4, "32")):
+        for opi, op in enumerate(("Size", "Read", "Write")):
+            reach = ["post"] + (["ok"] if op != "Size" else []) + (["trig"] if op == "Write" else [])
+            gs.append(dict(name="int%s_%s" % (n, op.lower()), enforce="COTInt%s%s" % (n, op), harness="int_fn.c",
+                           static_tu="object/basic/co_integer%s.c" % n, defs=["VW_W=%d" % w, "VW_OP=%d" % opi],
+                           replace=["COTPdoTrigObj"] if op == "Write" else [], nondet_static=True, reach=reach,
+                           props={"C06": "quick", "C01": "quick", "C02": "quick", "C12": "quick"}, timeout=120))
+    return gs
+GROUPS += _int_groups()
+
+def _dom_groups():
+    gs = []
+    for opi, op in enumerate(("Size", "Read", "Write", "Init", "Reset")):
+        g = dict(name="dom_%s" % op.lower(), enforce="COTDomain%s" % op, harness="dom_fn.c",
+                 static_tu="object/basic/co_domain.c", defs=["VW_OP=%d" % opi], nondet_static=True,
+                 reach=["post"] + (["moved", "clipped"] if op in ("Read", "Write") else []),
+                 props={"C06": "quick", "C01": "quick", "C02": "quick", "C03": "quick"}, timeout=300)
+        if op in ("Read", "Write"):   # explicit form, see contracts/domain.h
+            g.update(form="explicit", enforce=None, fn="COTDomain" + op, cost=30,
+                     loops={"COTDomain%s.0" % op: "VWL_dom_" + op.lower()})
+        gs.append(g)
+    return gs
+GROUPS += _dom_groups()
+
+def _str_groups():
+    gs = []
+    for opi, op in enumerate(("Size", "Read", "Init", "Reset")):
+        g = dict(name="str_%s" % op.lower(), enforce="COTString%s" % op, harness="str_fn.c",
+                 static_tu="object/basic/co_string.c", defs=["VW_OP=%d" % opi], nondet_static=True,
+                 reach=["post"] + {"Size": ["long"], "Read": ["clipped", "full"]}.get(op, []),
+                 props={"C06": "quick", "C01": "quick", "C03": "quick"}, timeout=300)
+        if op in ("Size", "Read"):
+            g.update(form="explicit", enforce=None, fn="COTString" + op, cost=30,
+                     loops={"COTString%s.0" % op: "VWL_str_" + op.lower()})
+        gs.append(g)
+    return gs
+GROUPS += _str_groups()
